@@ -464,7 +464,8 @@ def r17_16(ctx):
     start tag  '<' qualified-name  { ' xmlns' [':' prefix] '="' escaped-uri '"' }  { ' ' qualified-name '="' escaped-value '"' }  '>'
     end tag    '</' qualified-name '>'          qualified name   [prefix ':'] local"""
     def seq(pc):
-        return [x for x in nfq.texts(pc) if re.match(r"(self\.writer|p1)\.write_all\(|call write_to_buf_escaped\(|call write_qual_name\(|self\.qual_name\(|loop-begin|loop-end", x)]
+        # (which escaping mode the value writer is called with is R17.3's business: the third argument is not compared here)
+        return [re.sub(r"^(call write_to_buf_escaped\(self\.writer,[^,]+),.*\)$", r"\1,true)", x) for x in nfq.texts(pc) if re.match(r"(self\.writer|p1)\.write_all\(|call write_to_buf_escaped\(|call write_qual_name\(|self\.qual_name\(|loop-begin|loop-end", x)]
 
     def complete(pcs, last):
         out = [pc for pc in nfq.feasible(pcs) if str(pc["ret"]) in ("Ok(())", last)]
